@@ -8,6 +8,7 @@ func init() {
 			{Pkg: "workerpool", Harness: "restart", Weight: 2},
 			{Pkg: "workerpool", Harness: "restart", Config: "nowait", Weight: 2, Note: "Start is called right after Shutdown returned, without waiting for ShutdownComplete"},
 			{Pkg: "workerpool", Harness: "group", Weight: 2},
+			{Pkg: "workerpool", Harness: "grouptree", Weight: 2, Note: "root -> mid -> leaf, waits on every level, a subgroup shut down while submitters run"},
 		},
 		QuickS: 30, ThoroughS: 900,
 		Rule:   "each run draws a pool configuration (1-3 workers, cancel-on-shutdown on/off, optional restart cycles, optional group tree), 1-3 submitters with 1-3 tasks each (tasks yield and may submit nested tasks), a Shutdown/ShutdownComplete.Wait caller, waiters, and a schedule; distinct = distinct (configuration, schedule, event log) hash; non-trivial = at least two recorded decisions",
